@@ -882,6 +882,54 @@ class C11(Oracle):
                     reached |= {q.yx for q in s.grid.area.positions() if (type(s.grid[q]) is MovingObstacle)}
                 if free and reached != set(free):
                     out.append(V('move_obstacles/free-neighbour-unreachable', f'{c["state"]}'))
+            # a grid with a past: the stepped state (and a copy of it) is stepped again after obstacles
+            # entered or left it by other routes (a cell assignment, a box opened onto an obstacle): every
+            # obstacle that is there *now* follows the sweep rule
+            if not out:
+                from harness.codec import dec_obj
+
+                r0 = random.Random(len(c['state']) * 7919 + sum(c['answers']))
+                for st, tag in ((s1, 'the stepped state'), (fast_copy(s1), 'a copy of the stepped state')):
+                    floors = [p for p in st.grid.area.positions() if type(st.grid[p]) is Floor]
+                    if not floors:
+                        continue
+                    p_new = r0.choice(floors)
+                    if r0.random() < 0.5:
+                        st.grid[p_new] = MovingObstacle()
+                        how = f'grid[{p_new.y},{p_new.x}] = MovingObstacle()'
+                    else:
+                        st.grid[p_new] = dec_obj('XO')
+                        st.agent.position = p_new  # any pose facing the box would do; the box is opened directly
+                        st.grid[p_new] = st.grid[p_new].content
+                        how = f'a box at ({p_new.y},{p_new.x}) opened onto its MovingObstacle'
+                    if r0.random() < 0.3:
+                        gone = [p for p in st.grid.area.positions() if type(st.grid[p]) is MovingObstacle and p != p_new]
+                        if gone:
+                            st.grid[r0.choice(gone)] = Floor()
+                    st.agent.position = s1.agent.position
+                    before = [[enc_obj(st.grid[y, x]) for x in range(w)] for y in range(h)]
+                    ans2 = [r0.randrange(4) for _ in range(40)]
+                    try:
+                        trf.move_obstacles(st, a, rng=ScriptRng(list(ans2)))
+                    except Exception as e:
+                        out.append(V('move_obstacles/raises', f'{type(e).__name__} on {tag} of {c["state"]} after {how}'))
+                        break
+                    cur = [row[:] for row in before]
+                    answers = list(ans2)
+                    for y in range(h):
+                        for x in range(w):
+                            if before[y][x] != 'O':
+                                continue
+                            nb = [(y - 1, x), (y, x + 1), (y + 1, x), (y, x - 1)]
+                            free = [q for q in nb if 0 <= q[0] < h and 0 <= q[1] < w and cur[q[0]][q[1]] == 'F']
+                            if not free or cur[y][x] != 'O':
+                                continue
+                            q = free[(answers.pop(0) if answers else 0) % len(free)]
+                            cur[y][x], cur[q[0]][q[1]] = cur[q[0]][q[1]], cur[y][x]
+                    got = [[enc_obj(st.grid[y, x]) for x in range(w)] for y in range(h)]
+                    if cur != got:
+                        out.append(V('move_obstacles/deviates-from-sweep-rule', f'{tag} of {c["state"]} after {how}: {before} -> {got}, expected {cur}'))
+                        break
         elif c['atoms'] == [6]:
             s0 = state_from_str(c['state'])
             if not in_grid(s0.grid, s0.agent.position):
@@ -950,6 +998,61 @@ def triple_case_from_line(line):
         return None
 
 
+def bfs_dist(st, src):
+    """4-neighbour walking distances from src over cells that do not block movement (independent BFS)"""
+    from collections import deque
+
+    h, w = st.grid.shape.height, st.grid.shape.width
+    dist = {src.yx: 0}
+    dq = deque([src.yx])
+    while dq:
+        y, x = dq.popleft()
+        for dy, dx in ((-1, 0), (1, 0), (0, -1), (0, 1)):
+            q = (y + dy, x + dx)
+            if 0 <= q[0] < h and 0 <= q[1] < w and q not in dist and not blocks(st.grid[q]):
+                dist[q] = dist[(y, x)] + 1
+                dq.append(q)
+    return dist
+
+
+def lit_distance_reward(kind, st, st2, typ, closer, further):
+    """the distance-shaping rewards from positions alone (kind: 'manhattan' | 'euclidean' | 'path')"""
+    def where(x):
+        ps = [p for p in x.grid.area.positions() if type(x.grid[p]) is typ]
+        return ps[0] if len(ps) == 1 else None
+
+    p1, p2 = where(st), where(st2)
+    if p1 is None or p2 is None:
+        return None
+    if kind == 'path':
+        d1 = bfs_dist(st, p1).get(st.agent.position.yx, math.inf)
+        d2 = bfs_dist(st2, p2).get(st2.agent.position.yx, math.inf)
+    else:
+        def dist(a_, b_):
+            dy, dx = abs(a_.y - b_.y), abs(a_.x - b_.x)
+            return dy + dx if kind == 'manhattan' else dy * dy + dx * dx  # squared: same order
+
+        d1, d2 = dist(st.agent.position, p1), dist(st2.agent.position, p2)
+    return closer if d2 < d1 else further if d2 > d1 else 0.0
+
+
+def gen_episode_world(rng, h=None, w=None):
+    """a walled or open world with exactly one Exit and one Key and some walls, the agent on a free cell"""
+    h, w = h or rng.randint(2, 6), w or rng.randint(2, 6)
+    cells = {}
+    for i in range(h):
+        for j in range(w):
+            if rng.random() < 0.25:
+                cells[(i, j)] = 'W'
+    free = [(i, j) for i in range(h) for j in range(w) if (i, j) not in cells]
+    if len(free) < 3:
+        return None
+    e, k, ag = rng.sample(free, 3)
+    cells[e] = 'E0'
+    cells[k] = 'K2'
+    return gen.mk_state(h, w, cells, ag[0], ag[1], rng.choice(gen.ORIENTS))
+
+
 class C12(Oracle):
     prop = 'C12'
 
@@ -965,6 +1068,18 @@ class C12(Oracle):
                 # focused states): those of the components on that step's own (state, action, next state)
                 yield next(steps)
                 continue
+            if k % 29 == 7:
+                # a described environment whose groups repeat a component name with other parameters: the
+                # reward of a step is the sum of all the listed parts, the episode ends when any listed test says so
+                yield {'kind': 'cfgsum', 'file': rng.choice(shipped_files()), 'seed': rng.randrange(2**31), 'actions': [rng.randrange(6) for _ in range(rng.randint(4, 25))], 'dups': rng.randrange(2**31)}
+                continue
+            if k % 9 == 5:
+                # an episode: consecutive triples share their state objects (the next state of one step is the
+                # state of the following one), several shaping parts with different targets are asked in turn
+                st = gen_episode_world(rng)
+                if st is not None:
+                    yield {'kind': 'episode', 'state': enc_state(st), 'actions': [rng.randrange(6) for _ in range(rng.randint(3, 10))], 'pick': rng.randrange(10**6)}
+                continue
             s, a, s2 = corr_core._reward_triples(rng, k)
             corr_core._uniquify(rng, s, s2)
             yield {'kind': 'triple', 's': enc_state(s), 'a': a.value, 's2': enc_state(s2)}
@@ -972,9 +1087,100 @@ class C12(Oracle):
     def from_line(self, line):
         return triple_case_from_line(line)
 
+    def _episode(self, c):
+        from gym_gridverse.envs import reward_functions as rf
+        from gym_gridverse.envs import transition_functions as trf
+        from gym_gridverse.grid_object import Exit, Key
+
+        out = []
+        chain = trf.factory('chain', transition_functions=[trf.factory('move_agent'), trf.factory('turn_agent')])
+        specs = [('manhattan', Key, 1.0, -1.0), ('euclidean', Exit, 10.0, -10.0), ('path', Exit, 100.0, -100.0), ('manhattan', Exit, 1000.0, -1000.0), ('path', Key, 0.25, -0.5)]
+        dfn = {'manhattan': Position.manhattan_distance, 'euclidean': Position.euclidean_distance}
+
+        def part(kind, typ, cl, fu):
+            if kind == 'path':
+                return rf.factory('getting_closer_shortest_path', object_type=typ, reward_closer=cl, reward_further=fu)
+            return rf.factory('getting_closer', distance_function=dfn[kind], object_type=typ, reward_closer=cl, reward_further=fu)
+
+        parts = [part(*sp) for sp in specs]
+        total = rf.factory('reduce_sum', reward_functions=parts)
+        st = state_from_str(c['state'])
+        rr = random.Random(c['pick'])
+        for k, ai in enumerate(c['actions']):
+            a = ACTIONS[ai]
+            nxt = trf.transition_with_copy(chain, st, a, rng=None)
+            if rr.random() < 0.25:
+                # the caller moves the agent of the state it holds (in place) before asking
+                free = [p for p in nxt.grid.area.positions() if not blocks(nxt.grid[p])]
+                nxt.agent.position = rr.choice(free)
+            exp = [lit_distance_reward(sp[0], st, nxt, sp[1], sp[2], sp[3]) for sp in specs]
+            where = f'step {k} ({a.name}) of the episode {c["actions"]} from {c["state"]}: {enc_state(st)} -> {enc_state(nxt)}'
+            try:
+                got = [f(st, a, nxt) for f in parts]
+                tot = total(st, a, nxt)
+            except Exception as e:
+                out.append(V('episode/reward-raises', f'{type(e).__name__}: {e} at {where}'))
+                return out
+            if got != exp:
+                out.append(V('episode/shaping-reward-differs-from-the-triple-on-its-own', f'{where}: parts {got}, expected {exp}'))
+                return out
+            if tot != sum(exp):
+                out.append(V('reduce_sum/not-sum-of-parts', f'{where}: {tot} vs {exp}'))
+                return out
+            st = nxt
+        return out
+
+    def _cfgsum(self, c):
+        import copy
+        from harness import envspec
+        from gym_gridverse.envs.yaml.factory import factory_env_from_data
+
+        out = []
+        data = load_cfg(c['file'])
+        rr = random.Random(c['dups'])
+        rws = data['reward_functions']
+        for _ in range(rr.randint(1, 3)):
+            d = copy.deepcopy(rr.choice(rws))
+            for k_, v_ in d.items():
+                if isinstance(v_, float):
+                    d[k_] = rr.choice([v_ + 1.0, -v_, 2.5, 0.0])
+            rws.insert(rr.randrange(len(rws) + 1), d)
+        if rr.random() < 0.5:
+            t = data['terminating_function']
+            data['terminating_function'] = {'name': 'reduce_any', 'terminating_functions': [copy.deepcopy(t), {'name': 'bump_into_wall'}, copy.deepcopy(t)]}
+        import os
+
+        where = f'{os.path.basename(c["file"])} with reward_functions {[(r["name"], {k_: v_ for k_, v_ in r.items() if isinstance(v_, float)}) for r in rws]}'
+        try:
+            eh = envspec.hand_assemble(copy.deepcopy(data))
+        except Exception:
+            return out
+        try:
+            e1 = factory_env_from_data(copy.deepcopy(data))
+        except Exception as e:
+            return [V('described-environment/repeated-component-rejected', f'{where}: {type(e).__name__}: {e}')]
+        for e in (e1, eh):
+            e.set_seed(c['seed'])
+            e.reset()
+        n = len(e1.action_space.actions)
+        for k, ai in enumerate(c['actions']):
+            a = e1.action_space.actions[ai % n]
+            r1, r2 = e1.step(a), eh.step(a)
+            if r1 != r2:
+                out.append(V('described-environment/reward-is-not-the-sum-of-the-listed-parts', f'{where} step {k}: {r1} instead of {r2}'))
+                return out
+            if r1[1]:
+                e1.reset()
+                eh.reset()
+        return out
+
     def check(self, c):
         if c.get('kind') == 'step':
             return functional_interface_violations(c)
+        if c.get('kind') == 'episode':
+            return self._episode(c)
+        if c.get('kind') == 'cfgsum':
+            return self._cfgsum(c)
         from gym_gridverse.envs import reward_functions as rf
         from gym_gridverse.envs import terminating_functions as tf
         from gym_gridverse.grid_object import Beacon, Door, Exit, Key, MovingObstacle, Wall
@@ -2882,8 +3088,11 @@ class C17(Oracle):
                     of_ = data['observation_function']
                     if of_['name'] in ('partially_occluded', 'raytracing', 'fully_transparent'):
                         data['observation_function'] = {'name': 'from_visibility', 'visibility_function': {'name': of_['name']}, 'area': of_['area']}
-                nodes = list(data['reward_functions']) + [data['reset_function']]
                 done = []
+                if rr.random() < 0.3:
+                    dup = copy.deepcopy(rr.choice(data['reward_functions']))  # a component listed twice counts twice
+                    data['reward_functions'].insert(rr.randrange(len(data['reward_functions']) + 1), dup)
+                    done.append((dup['name'], 'listed', 'twice'))
                 for where_, lst in (('reward_functions', data['reward_functions']), ('transition_functions', data['transition_functions'])):
                     for i_, node in enumerate(lst):
                         items = list(node.items())
